@@ -240,6 +240,25 @@ Definition chain_ok (i : chain_in) (o : chain_out) : bool :=
       (* RMN on: an observation carrying roots was made only after the bundle's signatures were verified *)
       (if enabled && negb (match ob_roots ob with [] => true | _ => false end)
        then match call with Some _ => ans | None => false end else true) &&
+      (* FIXED (judge soundness, Proofs/JudgeSoundC05P.v chain_ok_before_unsound): whatever the oracle verified is the
+         bundle of THIS query against the signer set and the report fields (version, destination, RMN remote address,
+         off-ramp, digest) of this round's previous outcome. Before, only the lane updates and the signatures of the
+         recorded call were compared (in the outcome clause below), so a round whose bundle was verified against
+         another signer set / digest / off-ramp / destination passed the property, although
+         C05_reported_roots_verified demands exactly this call. *)
+      (match call with
+       | Some cl =>
+           match q_sigs q, offr with
+           | Some b, Some offa =>
+               match parse_sigs (b_sigs b), parse_lanes (b_lanes b) with
+               | Some sigs, Some lanes =>
+                   call_eqb cl (sigs, (cd_version d, dest, cd_contract d, offa, cd_digest d, lanes), cd_signers d)
+               | _, _ => false
+               end
+           | _, _ => false
+           end
+       | None => true
+       end) &&
       match out with
       | None => true
       | Some oo =>
